@@ -134,6 +134,7 @@ pub fn label_of(l: &str, pe_tx: &mut usize, pe_rx: &mut usize) -> String {
             _ => "other".to_owned(),
         };
     }
+    if l.starts_with("GATE open") || l == "WAKE external" { return "env".to_owned(); }
     "other".to_owned()
 }
 
@@ -192,16 +193,30 @@ pub fn gen_sched(rng: &mut Rng, lazy: bool) -> SchedGen {
     let mut g = gen_run(rng, 7, false);
     // scheduler-relevant decorations
     let serial_tag = if rng.chance(1, 5) { g.cfg.custom_which = true; "xserial" } else { "serial" };
-    let p_serial = *rng.pick(&[0usize, 1, 3]);
-    let delay_ms = *rng.pick(&[0u64, 0, 0, 3, 8]);
-    let with_delay = rng.chance(1, 4);
+    // focus modes: make the rarer mechanisms meet each other
+    let focus = rng.below(6); // 0,1 = none, 2 = delayed retries, 3 = serial + delayed retries, 4 = serial, 5 = retries everywhere
+    let p_serial = if focus == 3 || focus == 4 { 4 } else { *rng.pick(&[0usize, 1, 3]) };
+    let delay_ms = if focus == 2 || focus == 3 { *rng.pick(&[2u64, 5, 9]) } else { *rng.pick(&[0u64, 0, 0, 3, 8]) };
+    let with_delay = focus == 2 || focus == 3 || rng.chance(1, 4);
+    if focus == 2 || focus == 3 || focus == 5 {
+        // every scenario has a retry budget and fails often
+        for f in &mut g.feats {
+            for s in f.scens.iter_mut().chain(f.rules.iter_mut().flat_map(|r| r.scens.iter_mut())) {
+                if !s.tags.iter().any(|t| t.starts_with("retry")) { s.tags.push(format!("retry({})", rng.range(1, 2))); }
+            }
+        }
+        for ((_, att), sc) in g.scripts.iter_mut() {
+            if *att == 0 && rng.chance(1, 2) { sc.after = Some(Pan::Str(1)); }
+            if *att == 1 && rng.chance(1, 4) { sc.before = Some(Pan::Lit(0)); }
+        }
+    }
     for f in &mut g.feats {
         if rng.chance(p_serial, 20) { f.tags.push(serial_tag.to_owned()); }
         let mut deco = |s: &mut RScen, rng: &mut Rng| {
             if rng.chance(p_serial, 8) { s.tags.push(serial_tag.to_owned()); }
             if with_delay {
                 for t in &mut s.tags {
-                    if t.starts_with("retry(") && rng.chance(1, 2) { *t = format!("{t}.after({delay_ms}ms)"); }
+                    if t.starts_with("retry(") && (focus == 2 || focus == 3 || rng.chance(1, 2)) { *t = format!("{t}.after({delay_ms}ms)"); }
                 }
             }
         };
@@ -225,15 +240,28 @@ pub fn gen_sched(rng: &mut Rng, lazy: bool) -> SchedGen {
         .flat_map(|((s, _), sc)| (1..=3).map(move |a| ((s.clone(), a), sc.clone())))
         .collect();
     for (k, v) in extra { g.scripts.entry(k).or_insert(v); }
-    // parser script
+    // parser script: how many times each item answers `Pending` first; "slow" parsers stay pending
+    // while scenarios start, fail and finish
+    let slow = lazy && rng.chance(1, 3);
+    let pend = |rng: &mut Rng| if !lazy { 0 } else if slow { rng.range(2, 9) } else { rng.below(3) };
+    if slow && rng.chance(1, 2) {
+        // an early final failure while the parser is still busy (fail-fast paths)
+        if rng.chance(1, 2) { g.cfg.builder_ff = true; }
+        if let Some(((_, _), sc)) = g.scripts.iter_mut().find(|((s, a), _)| *a == 0 && g.info.get(&s.trim_start_matches("s-").parse::<usize>().unwrap_or(0)).is_some_and(|i| i.2.is_none())) {
+            sc.before = Some(Pan::Str(0));
+            sc.after = Some(Pan::Lit(1));
+            sc.init = Init::Err(1);
+            sc.gates = 0;
+        }
+    }
     let mut parser: Vec<(usize, Result<usize, usize>)> = vec![];
     let mut nerr = 0;
     for i in 0..g.feats.len() {
-        if rng.chance(1, 8) { parser.push((if lazy { rng.below(3) } else { 0 }, Err(nerr))); nerr += 1; }
-        parser.push((if lazy { rng.below(3) } else { 0 }, Ok(i)));
+        if rng.chance(1, 8) { parser.push((pend(rng), Err(nerr))); nerr += 1; }
+        parser.push((if i == 0 && slow { 0 } else { pend(rng) }, Ok(i)));
     }
-    if rng.chance(1, 8) { parser.push((if lazy { rng.below(3) } else { 0 }, Err(nerr))); }
-    let end_pendings = if lazy { rng.below(3) } else { 0 };
+    if rng.chance(1, 8) { parser.push((pend(rng), Err(nerr))); }
+    let end_pendings = pend(rng);
     SchedGen { g, parser, end_pendings }
 }
 
@@ -298,6 +326,7 @@ fn sched_case(rng: &mut Rng, idx: usize, lazy: bool) -> Case {
         if out.log.iter().any(|l| l.starts_with("GET2") && l.contains(":s")) { "serial " } else { "" },
         match nlabels { 0..=50 => "tiny", 51..=200 => "small", 201..=600 => "medium", _ => "large" },
     );
-    let imp = if out.ended && !out.stuck { CLEAN.to_owned() } else { format!("!run-did-not-end polls={}", out.polls) };
+    let imp = if let Some(m) = &out.panicked { format!("!runner-panicked {}", hex(m)) }
+        else if out.ended && !out.stuck { CLEAN.to_owned() } else { format!("!run-did-not-end polls={}", out.polls) };
     Case { req, imp, class, nontrivial: nlabels > 30 }
 }
